@@ -644,6 +644,13 @@ def _cmp_sv(res, prop, kind, i, out, xs, Ps, pmax=0.0, xmax=0.0, sens=(0.0, 0.0)
     so, co = out
     if not (np.all(np.isfinite(xs)) and np.all(np.isfinite(Ps))) and (sens[0] == float("inf")):
         return
+    scale_x = 1.0 + max(float(np.max(np.abs(so.data))) if so.data.size else 0.0, xmax)
+    scale_P = 1.0 + max(float(np.max(np.abs(co.data))) if co.data.size else 0.0, pmax)
+    if sens[0] > 1e-9 * scale_x or sens[1] > 1e-8 * scale_P or scale_x > 1e4 or scale_P > 1e6:
+        # domain guard (well-conditioned inputs): this tick amplifies a 1e-12 perturbation more than a thousandfold, or left
+        # the bounded domain; two correct implementations legitimately diverge here. Not compared, counted.
+        res.stats["probe:tick_not_compared_ill_conditioned"] += 1
+        return
     dx = max(0.0, float(np.max(np.abs(xs - so.data))) - 0.05 * sens[0]) if so.data.size else 0.0
     dP = max(0.0, float(np.max(np.abs(Ps - co.data))) - 0.05 * sens[1]) if co.data.size else 0.0
     if sens[0] > 1e-9 or sens[1] > 1e-9:
